@@ -11,6 +11,15 @@ fn cmd(op: &str, val: &[u8], cas: u64, ttl: u32, opq: u32) -> Cmd {
     Cmd { op: op.into(), q: false, gk: false, key: K.to_vec(), val: val.to_vec(), flags: 9, ttl, cas: CasSpec::Lit(cas), opaque: opq,
         delta: 1, initial: 10 }
 }
+fn cmdq(op: &str, val: &[u8], cas: u64, ttl: u32, opq: u32, gk: bool) -> Cmd {
+    let mut c = cmd(op, val, cas, ttl, opq);
+    c.q = true;
+    c.gk = gk;
+    c
+}
+fn flush(delay: u32, q: bool, opq: u32) -> Cmd {
+    Cmd { op: "flush".into(), q, gk: false, key: vec![], val: vec![], flags: 0, ttl: delay, cas: CasSpec::Lit(0), opaque: opq, delta: 0, initial: 0 }
+}
 fn tick(t: u64) -> Cmd {
     Cmd { op: "tick".into(), q: false, gk: false, key: vec![], val: vec![], flags: 0, ttl: 0, cas: CasSpec::Lit(0), opaque: 0, delta: t, initial: 0 }
 }
@@ -38,6 +47,42 @@ pub fn vocab(kind: &str, w: usize) -> Vec<Cmd> {
         cmd("delete", b"", 1, 0, o + 6),
         cmd("set", &v, 0, 3, o + 15), // a store that itself carries a (short) TTL
     ];
+    if kind == "C08" {
+        // deletes and flushes (immediate / delayed) against everything that rewrites a record
+        return vec![
+            cmd("delete", b"", 0, 0, o + 1),
+            cmd("delete", b"", 1, 0, o + 2),
+            flush(0, false, o + 3),
+            flush(2, false, o + 4),
+            cmd("get", b"", 0, 0, o + 5),
+            cmd("set", &v, 0, 0, o + 6),
+            cmd("set", &v, 0, 3, o + 7),
+            cmd("add", &v, 0, 0, o + 8),
+            cmd("replace", &v, 0, 0, o + 9),
+            cmd("append", &t, 0, 0, o + 10),
+            cmd("prepend", &t, 0, 0, o + 11),
+            cmd("incr", b"", 0, 0, o + 12),
+            cmd("set", &v, 1, 0, o + 13),
+        ];
+    }
+    if kind == "C19" {
+        // quiet commands against each other and against the loud ones
+        return vec![
+            cmdq("get", b"", 0, 0, o + 1, false),
+            cmdq("get", b"", 0, 0, o + 2, true),
+            cmdq("set", &v, 0, 0, o + 3, false),
+            cmdq("add", &v, 0, 0, o + 4, false),
+            cmdq("replace", &v, 0, 0, o + 5, false),
+            cmdq("append", &t, 0, 0, o + 6, false),
+            cmdq("incr", b"", 0, 0, o + 7, false),
+            cmdq("delete", b"", 0, 0, o + 8, false),
+            flush(0, true, o + 9),
+            cmd("get", b"", 0, 0, o + 10),
+            cmd("set", &v, 0, 3, o + 11),
+            cmd("delete", b"", 0, 0, o + 12),
+            flush(0, false, o + 13),
+        ];
+    }
     if kind == "C04" {
         base.extend(vec![
             cmd("add", &v, 0, 0, o + 7),
@@ -55,7 +100,10 @@ pub fn vocab(kind: &str, w: usize) -> Vec<Cmd> {
 }
 
 fn prog(kind: &str, init: &str, clients: Vec<Vec<Cmd>>, name: String) -> Program {
-    Program { layer: "memc".into(), name, kind: kind.into(), init: init.into(), policy: "none".into(), mem_limit: 0, keys: vec![K.to_vec()], setup: setup(init), clients }
+    // delayed flushes are observed after their delay has run out
+    let post_tick = if kind == "C08" { if init == "expired" { 9 } else { 4 } } else { 0 };
+    Program { layer: "memc".into(), name, kind: kind.into(), init: init.into(), policy: "none".into(), mem_limit: 0, keys: vec![K.to_vec()], setup: setup(init), clients,
+        post_tick }
 }
 
 /// all two-client programs with one command each (unordered pairs), for every initial state
@@ -66,8 +114,14 @@ pub fn pairs(kind: &str) -> Vec<Program> {
         let b = vocab(kind, 1);
         for i in 0..a.len() {
             for j in i..b.len() {
-                // for C04 at least one read-modify-write command
+                // for C04 at least one read-modify-write command, for C08 a delete or flush, for C19 a quiet command
                 if kind == "C04" && i < 7 && j < 7 {
+                    continue;
+                }
+                if kind == "C08" && i >= 4 && j >= 4 {
+                    continue;
+                }
+                if kind == "C19" && !a[i].q && !b[j].q {
                     continue;
                 }
                 out.push(prog(kind, init, vec![vec![a[i].clone()], vec![b[j].clone()]], format!("{}-{}-{}+{}", kind, init, a[i].op, b[j].op)));
@@ -159,7 +213,7 @@ pub fn eviction(kind: &str, n: usize, rng: &mut SmallRng) -> Vec<Program> {
             clients.push(cl);
         }
         out.push(Program { layer: "memc".into(), name: format!("{}-evict-{}", kind, x), kind: kind.into(), init: "mixed".into(), policy: "random".into(),
-            mem_limit: limit, keys: keys.clone(), setup, clients });
+            mem_limit: limit, keys: keys.clone(), setup, clients, post_tick: 0 });
     }
     out
 }
